@@ -8,12 +8,12 @@
    well-formed for it (Proofs/GenOk.v).  `nkc` (no king capture) is decidable; no generated move violates it when the side not to
    move is not in check; the judge evaluates it on every move the engine generates.
    Placement w.r.t. the rules: C02_successor_is_the_rules_successor (Proofs/AbsMake.v) -- abs (made position) = Spec.apply (abs g) m
-   for every position satisfying the invariant and every accepted generated move.  What stays open in C02_full is only the
-   rules-level well-formedness `wf` of the successor (it mentions the specification's own in_check, i.e. C01's attack semantics).
+   for every position satisfying the invariant and every accepted generated move; C02_full puts successor, invariant and the rules'
+   own in_check of the successor together (the specification's attack semantics through Proofs/AttackSpec.v).
    Per run the extracted monitor mon_make compares every successor the ENGINE produces with Spec.apply and checks
    occupancy = unions / disjointness / one king each. *)
 From Coq Require Import NArith List Bool.
-From JV Require Import Gen.Consts Model.Bits Model.Chess Model.Abs Proofs.MakeProofs Proofs.GenProofs Proofs.ConsProofs Proofs.GenOk Proofs.KingsProofs Proofs.MakeGen Proofs.LegalInv Proofs.LegalInvB Proofs.AbsMake.
+From JV Require Import Gen.Consts Model.Bits Model.Chess Model.Abs Proofs.MakeProofs Proofs.GenProofs Proofs.ConsProofs Proofs.GenOk Proofs.KingsProofs Proofs.MakeGen Proofs.LegalInv Proofs.LegalInvB Proofs.AbsMake Proofs.NkProofs Proofs.AttackSpec Spec.SpecCore Model.SearchChess.
 Local Open Scope N_scope.
 
 Theorem C02_scalars : forall g m g', make_search_move g m = Made g' ->
@@ -60,8 +60,26 @@ Proof. exact make_is_spec_apply. Qed.
 Theorem C02_generated_moves_well_formed : forall g all m, cons g -> In m (generate_moves g all) -> nkc g m -> move_ok g m.
 Proof. intros g all m C H NK. exact (generated_moves_ok g C all m H NK). Qed.
 
-Definition C02_full : Prop := forall g m g', wf g = true -> (half g < 255) -> (full g < 65535) ->
-  In m (legal_moves g) -> make_search_move g m = Made g' -> mon_make g m g' = true /\ wf g' = true.
+(* without the clocks no bound is needed (this is the form C14 uses) *)
+Theorem C02_successor_is_the_rules_successor_without_clocks : forall g all m g',
+  legal_inv g -> In m (generate_moves g all) -> make_search_move g m = Made g' ->
+  SpecCore.core (abs g') = SpecCore.core (ChessSpec.apply (abs g) (umove m)).
+Proof. exact make_abs_core. Qed.
+
+(* the property in one statement, for every position satisfying the invariant and every legal move: the made position is the rules'
+   successor in all fields, the redundant sets are again consistent (invariant), and the side that just moved is not in check in
+   the sense of the rules (ChessSpec.in_check on the abstraction) *)
+Theorem C02_full : forall g m g', legal_inv g -> half g < 255 -> full g < 65535 ->
+  In m (legal_moves g) -> make_search_move g m = Made g' ->
+  abs g' = ChessSpec.apply (abs g) (umove m) /\ legal_inv g' /\
+  ChessSpec.in_check (ChessSpec.board (abs g')) (ChessSpec.opp (ChessSpec.stm (abs g'))) = false.
+Proof.
+  intros g m g' LI HH HF HI M. unfold legal_moves, legal_values in HI. apply filter_In in HI. destruct HI as [HI _].
+  assert (LI' : legal_inv g') by (apply (legal_step g true m g' LI HI); unfold SearchChess.c_make; rewrite M; reflexivity).
+  split; [exact (make_is_spec_apply g true m g' LI HH HF HI M)|]. split; [exact LI'|].
+  destruct LI' as (C' & KG' & R' & NK' & _). rewrite (AttackSpec.in_check_model g' _ C' R' KG').
+  unfold NkProofs.nk in NK'. rewrite (stm_abs g'). destruct (white g'); exact NK'.
+Qed.
 
 Print Assumptions C02_scalars.
 Print Assumptions C02_consistency.
@@ -71,3 +89,5 @@ Print Assumptions C02_invariant_preserved.
 Print Assumptions C02_invariant_executable.
 Print Assumptions C02_successor_is_the_rules_successor.
 Print Assumptions C02_generated_moves_well_formed.
+Print Assumptions C02_successor_is_the_rules_successor_without_clocks.
+Print Assumptions C02_full.
